@@ -483,6 +483,10 @@ var c10InfoShapes = []c10Info{
 	{name: "d", size: 4096, mode: os.ModeDir | 0o755, mtime: 1700000000, uid: 4294967295, gid: 4294967294},
 	{name: "l", size: 1 << 32, mode: os.ModeSymlink | 0o777, mtime: 4294967295, uid: 7, gid: 8},
 	{name: "s", size: 1<<63 - 1, mode: os.ModeSetuid | 0o4755&0o777, mtime: 86400, uid: 65534, gid: 65534},
+	// entries that wrap a real os.FileInfo (Sys() is a *syscall.Stat_t naming another owner) or carry opaque
+	// system data, and state the owner to present through Uid()/Gid()
+	{name: "w", size: 9, mode: 0o640, mtime: 1234567890, uid: 424242, gid: 434343, sys: &syscall.Stat_t{Uid: 11, Gid: 12, Nlink: 2}},
+	{name: "o", size: 10, mode: os.ModeDir | 0o700, mtime: 1234567891, uid: 5, gid: 6, sys: "opaque"},
 }
 
 var c10StringShapes = []string{"", "rel/../x", "/abs//y/", "\xff\x00z", "/a b/\xc3\xa9", strings.Repeat("p/", 200)}
